@@ -42,6 +42,9 @@ type Scenario struct {
 	NStart        int       `json:"nstart"`
 	Reqs          []Request `json:"reqs"`
 	Ticks         []int     `json:"ticks"` // housekeeping ticks, ms after the start
+	// FailWrite > 0 (single request): the k-th transmission of the request fails in the socket
+	// (a transient error: nothing is sent, the attempt is used up)
+	FailWrite int `json:"failWrite,omitempty"`
 }
 
 type outcome struct {
@@ -60,6 +63,7 @@ type delivered struct {
 func tok(i int) []byte { return []byte{0xC6, byte(i + 1)} }
 
 func Exec(t *testing.T, sc Scenario, r *evid.Run) *evid.Failure {
+	var failedWrites []time.Duration
 	n := len(sc.Reqs)
 	outs := make([]outcome, n)
 	var wire []memnet.Record
@@ -70,6 +74,15 @@ func Exec(t *testing.T, sc Scenario, r *evid.Run) *evid.Failure {
 	var errs endpoints.Errs
 	res := bubble.Run(t, 60*time.Second, nil, func() {
 		link := memnet.NewPacketLink(memnet.LinkCfg{LatencyMs: 1})
+		if sc.FailWrite > 0 {
+			// (only transmissions of the request: the library closes the connection when it cannot
+			// write an acknowledgement, which is a policy of its own)
+			link.A.FailMatch = func(b []byte) bool {
+				m, ok := peer.ParseDatagram(b)
+				return ok && m.Type == peer.CON && m.Code == 1
+			}
+			link.A.FailWriteAt(sc.FailWrite)
+		}
 		var tk endpoints.Ticker
 		cli := endpoints.UDP(link.A, []udp.Option{
 			options.WithMessagePool(pool.New(8, 2048)),
@@ -113,7 +126,7 @@ func Exec(t *testing.T, sc Scenario, r *evid.Run) *evid.Failure {
 				mu.Unlock()
 			}(i)
 		}
-		seen := 0               // client datagrams already looked at
+		seen := 0                 // client datagrams already looked at
 		txCount := make([]int, n) // transmissions seen per request
 		replyCount := make([]int, n)
 		sepSent := make([]bool, n)
@@ -220,6 +233,7 @@ func Exec(t *testing.T, sc Scenario, r *evid.Run) *evid.Failure {
 			c()
 		}
 		wire = link.Log()
+		failedWrites = link.A.FailedWrites()
 		_ = cli.Close()
 		bubble.Wait()
 	})
@@ -331,6 +345,11 @@ func Exec(t *testing.T, sc Scenario, r *evid.Run) *evid.Failure {
 					sentBefore++
 				}
 			}
+			for _, ft := range failedWrites { // an attempt whose write failed is used up all the same
+				if ft >= t0 && ft <= tt {
+					sentBefore++
+				}
+			}
 			if sentBefore >= 1+sc.MaxRetransmit || sc.MaxRetransmit == 0 {
 				exhausted = tt
 				break
@@ -346,7 +365,7 @@ func Exec(t *testing.T, sc Scenario, r *evid.Run) *evid.Failure {
 		return evid.Failf(key, sc, "request %d: the response (%d %q) was delivered at %v, before exhaustion (%v) and before the deadline (%v), but the call failed at %v: %v", i, resp.m.Code, resp.m.Payload, resp.t, exhausted, dl, o.at, o.err)
 	}
 	// weak liveness: total silence, ticks at least every ACK_TIMEOUT/2, MAX_RETRANSMIT >= 1 => a retransmission happens
-	if len(sc.Reqs) == 1 && sc.MaxRetransmit >= 1 && sc.Reqs[0].Reaction == "nothing" && sc.Reqs[0].CancelMs == 0 {
+	if len(sc.Reqs) == 1 && sc.MaxRetransmit >= 1 && sc.Reqs[0].Reaction == "nothing" && sc.Reqs[0].CancelMs == 0 && len(failedWrites) == 0 {
 		dense := true
 		prev := time.Duration(0)
 		limit := 2*ackT + ackT/2
@@ -440,6 +459,9 @@ func gen(t *rapid.T) Scenario {
 		}
 	}
 	sort.Ints(sc.Ticks)
+	if len(sc.Reqs) == 1 && rapid.IntRange(0, 3).Draw(t, "failwrite") == 0 {
+		sc.FailWrite = rapid.IntRange(1, sc.MaxRetransmit+1).Draw(t, "failwriteat")
+	}
 	return sc
 }
 
@@ -478,7 +500,7 @@ func TestCheck(t *testing.T) {
 		return f
 	})
 	r.Main(evid.Meta{
-		Rule:        "a client datagram connection in a synctest bubble issuing 1-3 confirmable GETs with generated (ACK_TIMEOUT, MAX_RETRANSMIT 0-5, NSTART 1-3), per-transmission loss, peer reaction (piggy-backed, empty ACK then separate CON/NON response, RST, nothing), per-reply loss, reaction delays around ACK_TIMEOUT, caller deadline/cancellation, and a housekeeping tick schedule (around k x ACK_TIMEOUT +-1 ms, unrelated periods, random, dense); oracle over the wire log with exact virtual timestamps: copies <= 1+MAX_RETRANSMIT, k-th copy not before t0 + k x ACK_TIMEOUT, byte-identical, none after ACK/RST delivery, cancellation or return; success only with the peer's own response; a response delivered before exhaustion and deadline must make the call succeed; dense ticks and silence produce a retransmission. Non-trivial = at least one lost transmission or lost reply; distinct by scenario",
+		Rule:        "a client datagram connection in a synctest bubble issuing 1-3 confirmable GETs with generated (ACK_TIMEOUT, MAX_RETRANSMIT 0-5, NSTART 1-3), per-transmission loss, a transmission whose socket write fails (single-request scenarios), peer reaction (piggy-backed, empty ACK then separate CON/NON response, RST, nothing), per-reply loss, reaction delays around ACK_TIMEOUT, caller deadline/cancellation, and a housekeeping tick schedule (around k x ACK_TIMEOUT +-1 ms, unrelated periods, random, dense); oracle over the wire log with exact virtual timestamps: copies <= 1+MAX_RETRANSMIT, k-th copy not before t0 + k x ACK_TIMEOUT, byte-identical, none after ACK/RST delivery, cancellation or return; success only with the peer's own response; a response delivered before exhaustion and deadline must make the call succeed; dense ticks and silence produce a retransmission. Non-trivial = at least one lost transmission or lost reply; distinct by scenario",
 		Assumptions: []string{"'before exhaustion' is read conservatively: delivered strictly before the first tick that follows transmission number 1+MAX_RETRANSMIT (for MAX_RETRANSMIT = 0: before the first tick) and at least 1 ms before the deadline/cancellation", "nothing is asserted about NSTART"},
 		Floor:       300,
 	}, eng)
